@@ -72,6 +72,7 @@ static int known_index(const std::string& sig) {
 // is built in trap mode, so undefined behaviour arrives here as SIGILL) becomes an outcome of that
 // Case.  A fatal ASan error dumps the current Case before the process dies.
 #include <csignal>
+#include <xmmintrin.h>
 #include <csetjmp>
 #include <ucontext.h>
 #include <unistd.h>
@@ -114,6 +115,9 @@ static void run_raw(const VpCase& c, VpOutcome& o) {
     o.bad_lane = -1;
     if (c.target >= g_ntargets || c.op >= g_nops || !g_targets[c.target].present) { o.status = 2; return; }
     g_current = c;
+    // every Case starts from the default floating-point environment (a Case that leaves it changed is C11's business
+    // and is detected inside the check; it must not leak into the next Case)
+    _mm_setcsr(0x1F80);
     if (sigsetjmp(g_jmp, 1) == 0) {
         g_in_run = 1;
         vp_run(&c, &o);
